@@ -20,7 +20,8 @@ def collect(unit, paths, post_fn, fid, props_of):
     labels = {}
     unsupported = [p.outcome[1] for p in paths if p.outcome[0] == 'unsupported']
     if unsupported:
-        return [Ob(id=f'SOLVER/{unit}/subset', status=oblig.UNDECIDED, function=fid, solver_output='outside the subset: ' + unsupported[0])]
+        return [Ob(id=f'SOLVER/{unit}/subset', status=oblig.UNDECIDED, function=fid, clause=f'NOT: {unit} is inside the subset its contract was written for (loop structure, calls, attributes): no obligation of this unit is decided',
+                   solver_output='outside the subset: ' + unsupported[0])]
     allob, owner = [], []
     for p in paths:
         obligs = list(getattr(p, 'obligations', []))
@@ -81,6 +82,9 @@ def unit_attempt_field(has_prompt=True):
             out.append(('answered-input-list-untouched', z3.And(s1.MI.size == pre.MI.size, z3.ForAll([sm.L], s1.MI.cnt[sm.L] == pre.MI.cnt[sm.L]))))
             out.append(('inputs-untouched-by-an-attempt', z3.ForAll([sm.L], s1.C.mem[sm.L] == pre.C.mem[sm.L])))
             out.append(('refusal-flag-untouched', (corevc.to_term(s1.refused) == corevc.to_term(pre.refused)) if isinstance(pre.refused, corevc.SV) else z3.BoolVal(s1.refused is pre.refused)))
+            out.append(('an-attempt-is-at-least-one-unit-of-work', s1.ticks >= pre.ticks + 1))
+            out.append(('met-lines-not-yet-drained-are-kept-by-an-attempt', s1.MF.size >= pre.MF.size))
+            out.append(('waits-on-inputs-are-kept-by-an-attempt', z3.ForAll([sm.Dn], z3.Implies(pre.UI.has[sm.Dn], s1.UI.has[sm.Dn]))))
             out.append(('one-evaluation-per-attempt', z3.BoolVal(it.ghost.get('evaluations', 0) + it.ghost.get('attempts', 0) >= 1)))
             ok = it.ghost.get('oracle_ok')
             if ok is not None and it.ghost.get('attempts', 0) == 0:
@@ -104,6 +108,18 @@ def unit_attempt_field(has_prompt=True):
             out.append(('propagated-exception-is-not-a-handled-one', z3.BoolVal(not isinstance(exc, handled))))
             # AttributeError / KeyError / TypeError / NameError can only come from state the contract view does not know
             out.append(('no-internal-error-outside-the-contract-view', z3.BoolVal(not isinstance(exc, (AttributeError, KeyError, TypeError, NameError, IndexError)))))
+            # C10: the only ways a reference can abort the solve.  The internal assertion fires only for a line that no form of the
+            # catalogue declares; "not supported / not declared" only for a form the catalogue lacks or an input its form does not declare
+            d, k = it.ghost.get('oracle_dep'), it.ghost.get('oracle_key')
+            if isinstance(exc, AssertionError):
+                out.append(('internal-assertion-only-for-a-line-no-form-declares', z3.Not(sm.DECL_LINE(d)) if d is not None else z3.BoolVal(False)))
+            if isinstance(exc, NotImplementedError):
+                alts = []
+                if d is not None:
+                    alts.append(z3.Not(pre.FMAP.has[sm.class_part(sm.form_part(d))]))
+                if k is not None:
+                    alts += [z3.Not(pre.FMAP.has[sm.class_part(sm.form_part(k))]), z3.Not(sm.DECL_INPUT(k))]
+                out.append(('abort-only-for-an-absent-form-or-an-undeclared-input', z3.Or(*alts) if alts else z3.BoolVal(False)))
         return out
 
     def props_of(label):
